@@ -159,8 +159,8 @@ PROPS['C11'] = dict(
     assumptions=['as C02'],
 )
 
-CH_Q = ['u8_u16_p4', 'u8_u16_p8', 'u16_u32_p12', 'u32_u64_p24']
-CH_ALL = ['u8_u16_p4', 'u8_u16_p8', 'u8_u32_p8', 'u16_u32_p12', 'u16_u32_p16', 'u16_u64_p16', 'u32_u64_p24', 'u32_u64_p32']
+CH_Q = ['u8_u16_p3', 'u8_u16_p4', 'u8_u16_p8', 'u16_u32_p12', 'u32_u64_p24']
+CH_ALL = ['u8_u16_p3', 'u8_u16_p7', 'u16_u32_p9', 'u32_u64_p17', 'u8_u16_p4', 'u8_u16_p8', 'u8_u32_p8', 'u16_u32_p12', 'u16_u32_p16', 'u16_u64_p16', 'u32_u64_p24', 'u32_u64_p32']
 PROPS['C13'] = dict(
     obligations=[
         L('c13_step', 'k_c13_step_{cfg}', CH_Q, CH_ALL, soft=[20, 21], fixes=cuts_fixes),
@@ -179,10 +179,11 @@ PROPS['C13'] = dict(
 
 PROPS['C14'] = dict(
     obligations=[
+        L('c14_step_odd_precision', 'k_c13_step_{cfg}', ['u8_u16_p3'], ['u8_u16_p3', 'u8_u16_p7', 'u16_u32_p9', 'u32_u64_p17'], soft=[20, 21], fixes=cuts_fixes),
         L('c14_chunk', 'k_c14_chunk_{cfg}', ['u8_u16_p4', 'u8_u16_p8', 'u8_u16_p2', 'u16_u32_p8', 'u32_u64_p16'], ['u8_u16_p4', 'u8_u16_p8', 'u8_u16_p2', 'u16_u32_p8', 'u16_u32_p16', 'u32_u64_p16', 'u32_u64_p32']),
         L('c14_locality_k1', 'k_c13_rt_k1_{cfg}', ['u8_u16_p4', 'u8_u16_p8'], ['u8_u16_p4', 'u8_u16_p8', 'u8_u32_p8', 'u16_u32_p12', 'u32_u64_p24'], cap=dict(quick=60, thorough=600)),
-        L('c14_locality_k2', 'k_c13_rt_k2_{cfg}', ['u8_u16_p4'], ['u8_u16_p4', 'u8_u16_p8', 'u16_u32_p12', 'u32_u64_p24'], cap=dict(quick=90, thorough=600)),
-        L('c14_locality_k3', 'k_c13_rt_k3_{cfg}', [], ['u8_u16_p4'], cap=dict(quick=90, thorough=900)),
+        L('c14_locality_k2', 'k_c13_rt_k2_{cfg}', ['u8_u16_p4', 'u8_u16_p3'], ['u8_u16_p4', 'u8_u16_p8', 'u16_u32_p12', 'u32_u64_p24'], cap=dict(quick=90, thorough=600)),
+        L('c14_locality_k3', 'k_c13_rt_k3_{cfg}', [], ['u8_u16_p4', 'u8_u16_p3'], cap=dict(quick=90, thorough=900)),
     ],
     bounds='k <= 3 decoded symbols over arbitrary binary data (4-6 words); replacement model arbitrary at a symbolic position j; chunk reference for PRECISION dividing WordBits',
     outside='PRECISION not dividing WordBits for the explicit chunk reference (locality itself is checked at all listed precisions); k > 3',
@@ -205,7 +206,7 @@ PROPS['C09'] = dict(
 
 PROPS['C06'] = dict(
     obligations=[
-        L('c06_ans_ref_k1', 'k_c06_ans_k1_{cfg}', ['u8_u16_p4', 'u8_u16_p8', 'u16_u32_p12', 'u32_u64_p24'], ['u8_u16_p4', 'u8_u16_p8', 'u8_u32_p8', 'u16_u32_p12', 'u16_u32_p16', 'u32_u64_p24', 'u32_u64_p32']),
+        L('c06_ans_ref_k1', 'k_c06_ans_k1_{cfg}', ['u8_u16_p4', 'u8_u16_p8', 'u8_u32_p8', 'u16_u32_p12', 'u32_u64_p24'], ['u8_u16_p4', 'u8_u16_p8', 'u8_u32_p8', 'u16_u32_p12', 'u16_u32_p16', 'u32_u64_p24', 'u32_u64_p32']),
         L('c06_ans_ref_k2', 'k_c06_ans_k2_{cfg}', ['u8_u16_p4'], ['u8_u16_p4', 'u8_u16_p8', 'u16_u32_p12', 'u32_u64_p24'], cap=dict(quick=60, thorough=600)),
         L('c06_ans_ref_k3', 'k_c06_ans_k3_{cfg}', [], ['u8_u16_p8'], cap=dict(quick=60, thorough=900)),
         L('c06_range_ref_k1', 'k_c06_range_k1_{cfg}', ['u8_u16_p4', 'u8_u16_p8', 'u16_u32_p12', 'u32_u64_p24'], ['u8_u16_p4', 'u8_u16_p8', 'u8_u32_p8', 'u16_u32_p12', 'u16_u32_p16', 'u32_u64_p24', 'u32_u64_p32']),
@@ -224,7 +225,7 @@ PROPS['C06'] = dict(
 
 PROPS['C12'] = dict(
     obligations=[
-        L('c12_ans_step', 'k_c12_ans_{cfg}', ['u8_u16_p4', 'u8_u16_p8', 'u16_u32_p12', 'u32_u64_p24'], ['u8_u16_p4', 'u8_u16_p8', 'u8_u32_p8', 'u16_u32_p12', 'u16_u32_p16', 'u16_u64_p16', 'u32_u64_p24', 'u32_u64_p32'], fixes=cuts_fixes),
+        L('c12_ans_step', 'k_c12_ans_{cfg}', ['u8_u16_p4', 'u8_u16_p8', 'u8_u32_p8', 'u16_u32_p12', 'u32_u64_p24'], ['u8_u16_p4', 'u8_u16_p8', 'u8_u32_p8', 'u16_u32_p12', 'u16_u32_p16', 'u16_u64_p16', 'u32_u64_p24', 'u32_u64_p32'], fixes=cuts_fixes),
         L('c12_range_step', 'k_c12_range_{cfg}', ['u8_u16_p4', 'u8_u32_p8', 'u16_u32_p12', 'u32_u64_p24'], ['u8_u16_p4', 'u8_u16_p8', 'u8_u32_p8', 'u16_u32_p12', 'u16_u32_p16', 'u32_u64_p24', 'u32_u64_p32'], fixes=range_fixes, cap=dict(quick=60, thorough=300)),
         L('c12_words_k1', 'k_c12_words_k1_{cfg}', ['u8_u16_p4', 'u16_u32_p12']),
         L('c12_words_k2', 'k_c12_words_k2_{cfg}', ['u8_u16_p4'], ['u8_u16_p4', 'u8_u16_p8'], cap=dict(quick=60, thorough=600)),
@@ -269,7 +270,7 @@ M_FIXED = [K('m_fixed_contiguous_p8', 'models', 'fixed_contiguous_p8', tq=1500),
            K('m_fixed_lookup_p3', 'models', 'fixed_lookup_p3', tiers=('thorough',), tt=7200, mem_gb=40), K('m_fixed_lookup_p8', 'models', 'fixed_lookup_p8', tiers=('thorough',))]
 M_UNIFORM = [K('m_uniform_u8_p8', 'models', 'uniform_u8_p8', tq=600), K('m_uniform_u8_p5', 'models', 'uniform_u8_p5', tq=600)]
 M_FLOAT = [K('m_fast_f32_n3_p4_norm1', 'models', 'fast_f32_n3_p4_norm1', tq=900), K('m_lazy_f32_n3_p4_valid', 'models', 'lazy_f32_n3_p4_valid', tq=900), K('m_fast_f32_n2_p3_nonorm', 'models', 'fast_f32_n2_p3_nonorm', tq=900)]
-M_QUANT = [K('m_quantizer_u8_p4_sup3', 'models', 'quantizer_u8_p4_sup3', tq=1200)]
+M_QUANT = [K('m_quantizer_u8_p4_sup3', 'models', 'quantizer_u8_p4_sup3', tq=1200), K('m_fast_f32_n3_p24_u32', 'models', 'fast_f32_n3_p24_u32', tiers=('thorough',), tt=14400, mem_gb=40)]
 MODEL_BOUNDS = ('Probability = u8; supports of <= 3 symbols; PRECISION in {8 (= Probability bits, wrapping total), 4} for fixed-point tables, 4 / 3 for f32 tables '
                 '(n=3 normalised to exactly 1.0; n=2 any finite non-negative entries), leaky quantiser over a stub distribution whose CDF is a fully symbolic f64 table '
                 'constrained only by the documented contract (monotone, within [0,1]) with an arbitrary finite inverse hint (support 0..=2, P=4); uniform model over all ranges at P in {5,8}; symbolic quantile everywhere')
@@ -288,12 +289,14 @@ PROPS['C05'] = dict(obligations=[K('m_conv_view', 'models', 'conv_view', tq=900)
 
 PROPS['C19'] = dict(obligations=M_FIXED + [K('m_fixed_infer_complete_p8', 'models', 'fixed_infer_complete_p8', tq=600), K('m_fixed_infer_complete_p4', 'models', 'fixed_infer_complete_p4', tq=600),
                                            K('m_uniform_rejects', 'models', 'uniform_rejects', tq=300, lib_panics='allow'),
+                                           K('m_quantizer_new_rejects_u8', 'models', 'quantizer_new_rejects_u8', tq=300, lib_panics='allow'), K('m_quantizer_new_rejects_i8', 'models', 'quantizer_new_rejects_i8', tq=300, lib_panics='allow'),
+                                           K('m_quantizer_new_rejects_too_wide', 'models', 'quantizer_new_rejects_too_wide', tq=300, lib_panics='allow'),
                                            K('m_fast_f32_n2_p3_anyinput', 'models', 'fast_f32_n2_p3_anyinput', tq=900, lib_panics='allow')],
                     bounds=MODEL_BOUNDS + '; constructor inputs UNCONSTRAINED (any bit pattern of the floats, any fixed-point table, any infer_last flag, mismatched symbol counts); a library panic is an accepted outcome',
                     outside=MODEL_OUTSIDE + '; Python front end (FFI); recorded known findings are excluded by their region predicates (see known_findings.json)', assumptions=[])
 
-RG = [K('c08_range_guard_normal_u8_u16', 'rangek', 'range_guard_normal_u8_u16', tq=900), K('c08_range_guard_inverted_u8_u16', 'rangek', 'range_guard_inverted_u8_u16', tq=900),
-      K('c08_range_guard_normal_u16_u32', 'rangek', 'range_guard_normal_u16_u32', tq=900), K('c08_range_guard_inverted_u16_u32', 'rangek', 'range_guard_inverted_u16_u32', tq=900),
+RG = [K('c08_range_guard_normal_u8_u16', 'rangek', 'range_guard_normal_u8_u16', tq=900), K('c08_range_guard_inverted_u8_u16', 'rangek', 'range_guard_inverted_u8_u16', tq=900, mem_gb=30),
+      K('c08_range_guard_normal_u16_u32', 'rangek', 'range_guard_normal_u16_u32', tq=900), K('c08_range_guard_inverted_u16_u32', 'rangek', 'range_guard_inverted_u16_u32', tq=900, mem_gb=30),
       K('c08_range_guard_normal_u32_u64', 'rangek', 'range_guard_normal_u32_u64', tiers=('thorough',)), K('c08_range_guard_inverted_u32_u64', 'rangek', 'range_guard_inverted_u32_u64', tiers=('thorough',))]
 ANS_VIEWS = [K('c08_ans_view_u8_u16', 'ans', 'view_u8_u16'), K('c08_ans_view_u16_u32', 'ans', 'view_u16_u32'), K('c08_ans_view_u32_u64', 'ans', 'view_u32_u64', tiers=('thorough',)),
              K('c08_ans_binary_view_u8_u16', 'ans', 'guards_u8_u16'), K('c08_ans_binary_view_u16_u32', 'ans', 'guards_u16_u32', tiers=('thorough',))]
@@ -312,6 +315,7 @@ PROPS['C18'] = dict(
                  K('c18_ans_valid_bits_u8_u16', 'ans', 'binary_u8_u16'), K('c18_ans_valid_bits_u16_u32', 'ans', 'binary_u16_u32', tiers=('thorough',))] + RG[:4] +
                 [K('c18_bit_len_stack', 'bits', 'stack_export_import', tq=900), K('c18_bit_len_queue', 'bits', 'queue_fifo', tq=900),
                  K('c18_float_views', 'models', 'conv_symbol_table', tq=900),
+                 L('c18_range_sizes', 'k_c18_range_sizes_{cfg}', ['u8_u16', 'u16_u32', 'u32_u64'], ['u8_u16', 'u16_u32', 'u32_u64', 'u8_u32']),
                  L('c18_range_exhaustion', 'k_c02_fresh_k2_{cfg}', ['u8_u16_p4'], ['u8_u16_p4', 'u8_u16_p8', 'u16_u32_p12'], cap=dict(quick=90, thorough=600), explore_cap=dict(quick=400, thorough=3000)),
                  L('c18_range_exhaustion_k1', 'k_c02_rt_k1_{cfg}', RQ, RALL, fixes=range_fixes)],
     bounds='as C01/C02/C08/C16: size and emptiness queries compared with the length of the actual export from any raw state; exhaustion after exactly the encoded symbols (k <= 2); '
